@@ -50,7 +50,11 @@ Record tables3 := {
   t_param_required_negated : bool;     (* param.Required = !paramItem.Type.Optional *)
   t_body_required_negated : bool;      (* WithRequired(!paramItem.Type.Optional) *)
   t_param_in : list (string * string); (* case label of `switch paramItem.In` -> "header" | "path" | "query" | "body" *)
-  t_is_primitive : list string         (* syslwrapper.IsPrimitive case list *)
+  t_is_primitive : list string;        (* syslwrapper.IsPrimitive case list *)
+  t_bare_status_kept : bool;           (* mapResponse: `return 404` (no " <: ", no resolvable type) keeps its text as the
+                                          response name instead of "200" *)
+  t_responses_always : bool;           (* GenerateOpenAPI3: operation.Responses is set even without a return statement *)
+  t_content_guarded : bool             (* GenerateOpenAPI3: WithContent only if the return has a payload type *)
 }.
 
 (* Swagger 2: pkg/exporter/type_exporter.go *)
